@@ -29,7 +29,7 @@ from deep.config.tracepoint_config import TracepointConfigService, ConfigUpdateL
 class ConfigService:
     """This is the main service that handles config for DEEP."""
 
-    def __init__(self, custom: Dict[str, any] = None, tracepoints=TracepointConfigService()):
+    def __init__(self, custom: Dict[str, any] = None, tracepoints: TracepointConfigService = None):
         """
         Create a new config object.
 
@@ -40,7 +40,9 @@ class ConfigService:
         self._plugins = []
         self.__custom = custom
         self._resource = None
-        self._tracepoint_config = tracepoints
+        # every config service has its own tracepoint config; a default argument would be shared by all of them, and
+        # a second agent in the process would inherit the hash (and listeners) of the first one
+        self._tracepoint_config = tracepoints if tracepoints is not None else TracepointConfigService()
 
     def __getattribute__(self, name: str) -> Any:
         """
